@@ -345,7 +345,7 @@ Core == <<
   <<Seq2(Opt(Str(N)), Str(B)), Seq2(Rep(AnyOf(<<"a", "n">>)), Str(<<"c">>)), AnyBut(<<>>)>>,
   <<Seq2(Seq2(Str(N), Opt(Str(A))), Str(B)), Str(A), AnyBut(<<>>)>>,            \* Seq.match_nl looks past a nullable tail
   <<Seq2(Str(A), Rep1(Seq2(Str(N), Rep(Str(B))))), Str(B), Str(N)>>,            \* ... inside a Rep1 that is not at the rule start
-  <<Seq2(Eof, Eof), Rep1(Rng("a", "c")), AnyOf(N), Eof>>,                       \* the eof symbol comes once
+  <<Seq2(Eof, Eof), Rep1(Rng("a", "c")), Seq2(Eol, Opt(Str(N))), Eof>>,                      \* the eof symbol comes once
   <<Seq2(Alt2(Opt(Str(A)), Str(N)), Str(B)), Seq3(Str(B), Alt2(Empty, Str(N)), Str(A)), AnyBut(B)>>
 >>
 NCore == IF UseCore THEN Len(Core) ELSE 0
@@ -414,7 +414,8 @@ PickText == /\ phase = "lex"
                                 /\ ref' = RefScan(lex, t)
                                 /\ imp' = ImplScan(dfa, t)
             /\ phase' = "case"
-            /\ UNCHANGED <<li, lex, dfa>>
+            /\ lex' = <<>> /\ dfa' = 0          \* leaves stay small (the lexicon is LexiconOf(li))
+            /\ UNCHANGED li
 Next == PickLexicon \/ BuildLexicon \/ PickText
 Spec == Init /\ [][Next]_vars
 
@@ -440,28 +441,28 @@ ImplAgreesOffHazards == IsCase => /\ imp.toks = ref.toks
 ImplTokensAreBest ==
   IsCase => LET E == Events(text) IN
             \A j \in DOMAIN imp.toks :
-               LET C == Cands(lex, E, imp.spans[j][1])
+               LET C == Cands(LexiconOf(li), E, imp.spans[j][1])
                    c == <<imp.toks[j][1], imp.spans[j][2]>>
                IN c \in C /\ IsBest(c, C)
 \* the organised choice of the reference is the declarative one, at every scan point of the text
 RefChoiceIsBest ==
   IsCase => LET E == Events(text) IN
             \A p \in 0..Len(E) :
-               LET C == Cands(lex, E, p)
-                   b == Choice(lex, E, p)
+               LET C == Cands(LexiconOf(li), E, p)
+                   b == Choice(LexiconOf(li), E, p)
                IN IF C = {} THEN b[1] = 0
                   ELSE <<b[1], b[2]>> \in C /\ IsBest(<<b[1], b[2]>>, C) /\ (b[3] <=> \E d \in C : d[2] = b[2] /\ d[1] # b[1])
 \* "input no rule matches is reported as an error" -- and nothing else is
 ErrorIffNoRuleMatches ==
   IsCase => LET E == Events(text)
-                none == Cands(lex, E, imp.endp) = {}
+                none == Cands(LexiconOf(li), E, imp.endp) = {}
                 left == Pos(E, imp.endp) < Len(text)      \* characters not yet consumed
             IN /\ (imp.end.k \in {"error", "eof"}) => none
                /\ (imp.end.k = "eof") => ~left
                /\ (imp.end.k = "error" /\ ~Hazard) => left
 
 \* DFA sanity: deterministic by construction; every accepting action is a rule of the lexicon
-DfaWellFormed == phase \in {"lex", "case"} =>
+DfaWellFormed == phase = "lex" =>
                    /\ dfa.K >= 1
                    /\ \A i \in 1..dfa.K : dfa.act[i] \in 0..Len(lex) /\ \A e \in Ev7 : dfa.tr[i][e] \in 0..dfa.K
 
